@@ -58,25 +58,59 @@ Qed.
 Print Assumptions C15_frame_dict_copying.
 
 Theorem C15_refines_redis : forall ops s r,
-  RRedis s r -> wf_ops r ops = true ->
-  RRedis (fst (redis_run s ops)) (fst (ref_run r ops)) /\
+  RRedisO [] s r -> wf_ops r ops = true ->
+  RRedisO [] (fst (redis_run s ops)) (fst (ref_run r ops)) /\
   Forall2 res_match (snd (redis_run s ops)) (snd (ref_run r ops)) /\
   forall id, redis_view (fst (redis_run s ops)) id = rlookup (fst (ref_run r ops)) id.
 Proof.
   intros ops s r H Hwf. destruct (refines_redis ops s r H Hwf) as [H1 H2].
-  split; [exact H1|]. split; [exact H2|]. intros id. apply redis_view_rep. exact H1.
+  split; [exact H1|]. split; [exact H2|]. intros id. apply (redis_view_rep []). exact H1.
 Qed.
 Print Assumptions C15_refines_redis.
 
 (* redis with wait() calls anywhere in between (the queue consuming the
    announcement list or not): the storage operations still answer like the
    reference store - in particular load() with pending announcements *)
-Theorem C15_refines_redis_wait : forall its s r,
-  RRedis s r -> wf_ops r (ritem_ops its) = true ->
-  RRedis (fst (redis_run_items s its)) (fst (ref_run r (ritem_ops its))) /\
+Theorem C15_refines_redis_wait : forall its orph s r,
+  RRedisO orph s r -> items_wf orph r its ->
+  (exists orph', RRedisO orph' (fst (redis_run_items s its)) (fst (ref_run r (ritem_ops its)))) /\
   Forall2 res_match (op_results its (snd (redis_run_items s its))) (snd (ref_run r (ritem_ops its))).
 Proof. exact refines_redis_items. Qed.
 Print Assumptions C15_refines_redis_wait.
+
+(* half-written entries (a writer died between HSETNX envelope and the
+   pipeline): every operation that stays clear of them still answers like the
+   reference store and leaves them alone ... *)
+Theorem C15_refines_redis_orphans : forall orph ops s r,
+  RRedisO orph s r -> wf_ops r ops = true -> Forall (avoids orph) ops ->
+  RRedisO orph (fst (redis_run s ops)) (fst (ref_run r ops)) /\
+  Forall2 res_match (snd (redis_run s ops)) (snd (ref_run r ops)).
+Proof. exact refines_redis_orphans. Qed.
+Print Assumptions C15_refines_redis_orphans.
+
+(* ... load() does not raise on them, changes nothing, lists every live message
+   with its timestamp and each half-written entry with the current clock;
+   get() of one returns its envelope with attempts 0; and the half-write itself
+   only adds such an entry *)
+Theorem C15_redis_load_with_orphans : forall orph s r now,
+  RRedisO orph s r ->
+  fst (run rexec (redis_prog (OLoad now)) s) = s /\
+  exists l, snd (run rexec (redis_prog (OLoad now)) s) = RLoad l /\
+            Permutation l (map (fun p => (en_ts (snd p), fst p)) r ++ map (fun p => (now, fst p)) orph).
+Proof. exact redis_load_with_orphans. Qed.
+Print Assumptions C15_redis_load_with_orphans.
+
+Theorem C15_redis_orphan_entries : forall orph s r id e,
+  RRedisO orph s r ->
+  (alookup N.eqb orph id = Some e -> run rexec (redis_prog (OGet id)) s = (s, RGot e 0)) /\
+  (rlookup r id = None -> alookup N.eqb orph id = None ->
+   RRedisO (aset N.eqb orph id e) (fst (rexec s (QHsetnxEnv id e))) r).
+Proof.
+  intros orph s r id e H. split.
+  - apply (redis_get_orphan orph s r); exact H.
+  - apply redis_orphan_injection; exact H.
+Qed.
+Print Assumptions C15_redis_orphan_entries.
 
 (* load() does not depend on the announcement list and leaves the store alone *)
 Theorem C15_redis_load_ignores_announcements : forall s q now,
@@ -88,13 +122,13 @@ Print Assumptions C15_redis_load_ignores_announcements.
 (* a successful write() announces (timestamp, id) at the end of the list and
    wait() hands the announcements out first in, first out, with that very id *)
 Theorem C15_redis_announcements : forall s r,
-  RRedis s r ->
+  RRedisO [] s r ->
   (forall e ts cands tmps id, snd (redis_step s (OWrite e ts cands tmps)) = RId id ->
      r_queue (fst (redis_step s (OWrite e ts cands tmps))) = r_queue s ++ [(ts, id)]) /\
   (forall x q, r_queue s = x :: q -> run rexec redis_wait s = (mkRedis (r_hashes s) q, RLoad [x])).
 Proof.
   intros s r H. split.
-  - intros e ts cands tmps id. apply (redis_write_announces s r); exact H.
+  - intros e ts cands tmps id. apply (redis_write_announces [] s r); [exact H|intros; reflexivity].
   - intros x q. apply redis_wait_fifo.
 Qed.
 Print Assumptions C15_redis_announcements.
@@ -143,7 +177,7 @@ Qed.
 Print Assumptions C15_refines_disk_numcodec.
 
 Theorem C15_initial_states_related :
-  RDict dict_init [] /\ RCDict cdict_init [] /\ RRedis redis_init [] /\ (forall f, RCloud (cloud_init f) []) /\
+  RDict dict_init [] /\ RCDict cdict_init [] /\ RRedisO [] redis_init [] /\ (forall f, RCloud (cloud_init f) []) /\
   RDisk nc_enc_env nc_enc_meta [] [].
 Proof. split; [apply RDict_init|]. split; [apply RCDict_init|]. split; [apply RRedis_init|]. split; [apply RCloud_init|apply RDisk_init]. Qed.
 Print Assumptions C15_initial_states_related.
@@ -202,13 +236,13 @@ Qed.
 Print Assumptions C15_frame_dict.
 
 Theorem C15_frame_redis : forall s r o j,
-  RRedis s r -> wf_op r o = true -> ref_target r o <> Some j ->
+  RRedisO [] s r -> wf_op r o = true -> ref_target r o <> Some j ->
   redis_view (fst (redis_step s o)) j = redis_view s j.
 Proof.
   intros s r o j H Hwf Hj.
-  apply (seq_frame rstate redis_step RRedis redis_view (fun _ _ => True)) with (r := r); try assumption; try exact I.
-  - intros s0 r0 id H0. apply redis_view_rep. exact H0.
-  - intros s0 r0 o0 H0 H1 _. apply redis_step_sim; assumption.
+  apply (seq_frame rstate redis_step (RRedisO []) redis_view (fun _ _ => True)) with (r := r); try assumption; try exact I.
+  - intros s0 r0 id H0. apply (redis_view_rep []). exact H0.
+  - intros s0 r0 o0 H0 H1 _. apply redis_step_sim; [assumption..|apply avoids_nil].
 Qed.
 Print Assumptions C15_frame_redis.
 
@@ -291,6 +325,59 @@ Theorem C15_frame_interleaved_disk :
   (forall q, (forall sp, In sp specs -> dfoot (fst (fst sp)) (snd (fst sp)) q = false) -> fget (fst out) q = fget s0 q).
 Proof. intros. apply frame_interleaved_disk; assumption. Qed.
 Print Assumptions C15_frame_interleaved_disk.
+
+(* ---- load() and get() are read-only on every substrate, so threads that
+   only load/get - overlapping anything, e.g. a write between its envelope and
+   its meta step - are invisible to everybody else: state and the other threads
+   are exactly those of the schedule without the readers' steps (to which the
+   C15_frame_interleaved_* / C04 theorems apply) *)
+Theorem C15_load_readonly : forall now,
+  (forall s, fst (dict_step s (OLoad now)) = s) /\
+  (forall s, fst (cdict_step true s (OLoad now)) = s) /\
+  (forall s, fst (run rexec (redis_prog (OLoad now)) s) = s) /\
+  (forall mq s, fst (run cexec (cloud_prog mq (OLoad now)) s) = s) /\
+  (forall enc_env dec_env enc_meta dec_meta chunk s,
+     fst (run dexec (disk_prog enc_env dec_env enc_meta dec_meta chunk (OLoad now)) s) = s).
+Proof.
+  intros now. split; [reflexivity|]. split; [reflexivity|]. split; [|split].
+  - intros s. apply ro_prog_run. apply redis_read_ro. reflexivity.
+  - intros mq s. apply ro_prog_run. apply cloud_read_ro. reflexivity.
+  - intros. apply ro_prog_run. apply disk_read_ro. reflexivity.
+Qed.
+Print Assumptions C15_load_readonly.
+
+Theorem C15_readers_invisible_disk :
+  forall (enc_env : envelope -> bytes) dec_env (enc_meta : meta -> bytes) dec_meta chunk
+         sch s (owners : list disk_thread) (reader_ops : list (list op)),
+  Forall (Forall (fun o => is_read o = true)) reader_ops ->
+  let dprog_of := disk_prog enc_env dec_env enc_meta dec_meta chunk in
+  let own_sch := filter (fun i => Nat.ltb i (length owners)) sch in
+  fst (sched dexec (th_next dprog_of) sch s (owners ++ map th_start reader_ops)) =
+    fst (sched dexec (th_next dprog_of) own_sch s owners) /\
+  firstn (length owners) (snd (sched dexec (th_next dprog_of) sch s (owners ++ map th_start reader_ops))) =
+    snd (sched dexec (th_next dprog_of) own_sch s owners).
+Proof. intros. apply readers_invisible_disk. assumption. Qed.
+Print Assumptions C15_readers_invisible_disk.
+
+Theorem C15_readers_invisible_redis : forall sch s (owners : list (thread rcmd rans)) (reader_ops : list (list op)),
+  Forall (Forall (fun o => is_read o = true)) reader_ops ->
+  let own_sch := filter (fun i => Nat.ltb i (length owners)) sch in
+  fst (sched rexec (th_next redis_prog) sch s (owners ++ map th_start reader_ops)) =
+    fst (sched rexec (th_next redis_prog) own_sch s owners) /\
+  firstn (length owners) (snd (sched rexec (th_next redis_prog) sch s (owners ++ map th_start reader_ops))) =
+    snd (sched rexec (th_next redis_prog) own_sch s owners).
+Proof. exact readers_invisible_redis. Qed.
+Print Assumptions C15_readers_invisible_redis.
+
+Theorem C15_readers_invisible_cloud : forall mq sch s (owners : list (thread ccmd cans)) (reader_ops : list (list op)),
+  Forall (Forall (fun o => is_read o = true)) reader_ops ->
+  let own_sch := filter (fun i => Nat.ltb i (length owners)) sch in
+  fst (sched cexec (th_next (cloud_prog mq)) sch s (owners ++ map th_start reader_ops)) =
+    fst (sched cexec (th_next (cloud_prog mq)) own_sch s owners) /\
+  firstn (length owners) (snd (sched cexec (th_next (cloud_prog mq)) sch s (owners ++ map th_start reader_ops))) =
+    snd (sched cexec (th_next (cloud_prog mq)) own_sch s owners).
+Proof. exact readers_invisible_cloud. Qed.
+Print Assumptions C15_readers_invisible_cloud.
 
 (* ---- marking rounds (the per-backend round function the queue model of C01/C03 imports) *)
 (* sorted(...) of a set does not depend on the order the set is iterated in *)
